@@ -95,7 +95,7 @@ func semverLess(a, b semv) bool {
 	return len(a.pre) < len(b.pre)
 }
 
-var c20Versions = []string{"v3.0.0", "v3.0.1", "v3.1.0", "v3.2.0", "v3.2.1", "v3.9.0", "v3.10.0", "v3.10.1", "v4.0.0", "v2.9.9", "v3.2.0-rc.1", "v3.2.0-rc.2", "v3.2.0-rc.10", "v3.2.0-beta", "v3.2.0-alpha.1", "v3.3.0-rc.1", "3.4.0", "v3.2.0+build.5", "v3.11.0", "v4.0.0-rc.1", "v4.1.0", "v2.10.0"}
+var c20Versions = []string{"v3.0.0", "v3.0.1", "v3.1.0", "v3.2.0", "v3.2.1", "v3.9.0", "v3.10.0", "v3.10.1", "v4.0.0", "v2.9.9", "v3.2.0-rc.1", "v3.2.0-rc.2", "v3.2.0-rc.10", "v3.2.0-beta", "v3.2.0-alpha.1", "v3.3.0-rc.1", "3.4.0", "v3.2.0+build.5", "v3.11.0", "v4.0.0-rc.1", "v4.1.0", "v2.10.0", "v10.0.0", "v11.2.0", "4.0.0", "v3.0.5"}
 var c20Foreign = []string{"v3", "v4", "v2", "v3.1", "v3.2", "nightly", "latest", "release-candidate", "docs-2024", "v3-old", "mockery-v3"}
 
 func c20Gen(r *core.Rng) c20Case {
@@ -110,6 +110,8 @@ func c20Gen(r *core.Rng) c20Case {
 			cs.Ops = append(cs.Ops, c20Op{Kind: "dirty", Arg: core.Pick(r, []string{"untracked", "modified", "staged-new", "staged-modified", "deleted", "staged-deleted"})})
 		case k < 8:
 			cs.Ops = append(cs.Ops, c20Op{Kind: "clean"})
+		case k == 12 && r.Chance(1, 2):
+			cs.Ops = append(cs.Ops, c20Op{Kind: "pack"})
 		case k == 11 && r.Chance(1, 2):
 			// a branch named like a tag the tool handles
 			cs.Ops = append(cs.Ops, c20Op{Kind: "branch", Arg: core.Pick(r, []string{"v3", "v4", "v3.2.0", "release"})})
@@ -266,6 +268,8 @@ func evalC20(c *core.Ctx, cs c20Case, id string) Outcome {
 			}
 		case "branch":
 			g.git("branch", "-f", op.Arg, "HEAD")
+		case "pack":
+			g.git("pack-refs", "--all")
 		case "version":
 			version = op.Arg
 			os.WriteFile(envFile, []byte("VERSION="+version+"\n"), 0o644)
